@@ -99,6 +99,7 @@ type gPackage struct {
 	Topics   []gTopic
 	Entity   *gEntity
 	FlatHost string // a named object with a flattened object field whose children are referenced by nothing else
+	Clash    string // "" | "case": enum options differing only in case | "split": Host_Inner collides with Host's inline Inner
 	Awkward  bool // uses property names whose JSON name is not the protobuf default of the snake name
 }
 
@@ -298,6 +299,8 @@ func (g *gctx) props(n int) []gProp {
 			case 1:
 				pr.Mark = "!"
 			}
+		} else if g.inline && t.Inline == nil && g.r.Chance(10) {
+			pr.Mark = "?" // an optional array / map (NOTICE-4: proto3_optional on a repeated field)
 		}
 		g.decorateProp(&pr)
 		out = append(out, pr)
@@ -338,6 +341,12 @@ func genPackageOpt(r *vh.Rand, awkward, decorate bool) *gPackage {
 			}
 		}
 		switch s.Kind {
+		case "enum":
+			for _, o := range []string{"ALPHA", "BETA"} {
+				if r.Chance(25) {
+					s.Props = append(s.Props, gProp{Name: o, Desc: vh.Pick(r, []string{"the first one", "second choice", "described option"})})
+				}
+			}
 		case "object":
 			s.Props = g.props(r.Range(1, 5))
 			if r.Chance(35) { // direct self reference
@@ -389,6 +398,19 @@ func genPackageOpt(r *vh.Rand, awkward, decorate bool) *gPackage {
 			g.schemas[h].Props = append(g.schemas[h].Props, gProp{Name: "flatBase", Ty: gTy{Kind: "object", Ref: base.Name}, Flatten: true})
 			p.FlatHost = g.schemas[h].Name
 		}
+	}
+	// rare: names the compiler accepts and a later stage cannot take (NOTICE-4; recorded as known findings)
+	switch r.Intn(50) {
+	case 0: // enum options that differ only in case: protodesc / protocompile reject the camel-case conflict
+		g.schemas = append(g.schemas, gSchema{Name: "CaseClash", Kind: "enum", Props: []gProp{{Name: "@Active"}, {Name: "@ACTIVE"}}})
+		g.schemas[0].Props = append(g.schemas[0].Props, gProp{Name: "clashKind", Ty: gTy{Kind: "enum", Ref: "CaseClash"}})
+		p.Clash = "case"
+	case 1: // object SplitHost_Kind next to object SplitHost with an inline enum field kind: both become SplitHost_Kind
+		g.schemas = append(g.schemas,
+			gSchema{Name: "SplitHost_Kind", Kind: "object", Props: []gProp{{Name: "note", Ty: gTy{Kind: "string"}}}},
+			gSchema{Name: "SplitHost", Kind: "object", Props: []gProp{{Name: "kind", Ty: gTy{Kind: "enum", Inline: &gSchema{Kind: "enum"}}, Attrs: []string{`rules.in = ["FAST"]`}}}})
+		g.schemas[0].Props = append(g.schemas[0].Props, gProp{Name: "splitHost", Ty: gTy{Kind: "object", Ref: "SplitHost"}}, gProp{Name: "splitKind", Ty: gTy{Kind: "object", Ref: "SplitHost_Kind"}})
+		p.Clash = "split"
 	}
 	p.Schemas = g.schemas
 
@@ -603,7 +625,31 @@ func (p *gPackage) text() string {
 			}
 			sb.WriteString("}\n\n")
 		case "enum":
-			fmt.Fprintf(&sb, "enum %s {\n%s\toption ALPHA\n\toption BETA\n}\n\n", s.Name, descLines("\t", s.Desc))
+			fmt.Fprintf(&sb, "enum %s {\n%s", s.Name, descLines("\t", s.Desc))
+			// options ALPHA, BETA; s.Props carries a description for some of them (only described options get a
+			// source location in the compiled descriptor: located and unlocated values mixed)
+			descOf := map[string]string{}
+			for _, o := range s.Props {
+				descOf[o.Name] = o.Desc
+			}
+			opts := []string{"ALPHA", "BETA"}
+			var custom []string
+			for _, o := range s.Props {
+				if strings.HasPrefix(o.Name, "@") {
+					custom = append(custom, o.Name[1:])
+				}
+			}
+			if len(custom) > 0 {
+				opts = custom
+			}
+			for _, o := range opts {
+				if d := descOf[o]; d != "" {
+					fmt.Fprintf(&sb, "\toption %s | %s\n", o, d)
+				} else {
+					fmt.Fprintf(&sb, "\toption %s\n", o)
+				}
+			}
+			sb.WriteString("}\n\n")
 		}
 	}
 	for _, sv := range p.Services {
